@@ -1,8 +1,8 @@
 #!/verif/.venv/bin/python
 # Replay of a solver counterexample against the unmodified code (no shims).
-# property=C01 kernel=l1 label=c01:max_sequence_duration
+# property=C01 kernel=finite label=finite:accepted_pulse_has_finite_samples
 import sys
 sys.path[:0] = ['/repo' + "/pulser-core", '/repo' + "/pulser-simulation", "/verif"]
 from symx.replay import replay
-sys.exit(replay(check='checks.c01', kernel='l1', shape={'own': {'clock': 1, 'local': True, 'slots': [], 'mod': True, 'pj': 'custom', 'targets_a': ['q0'], 'targets_b': ['q1']}, 'op': ['add_target', 'diff'], 'maxseq': True, 'nbarriers': 1},
-                assignment={'max_sequence_duration': 1, 'own.min_duration': 1, 'own.tr': 1, 'own.pjt': 0, 'own.min_retarget': 2, 'own.fixed_retarget': 1}, label='c01:max_sequence_duration'))
+sys.exit(replay(check='checks.c01', kernel='finite', shape={'cls': 'blackman', 'dur': 2, 'as': 'amp'},
+                assignment={'area': '0/1', 'max_det': '0/1', 'max_amp': '0/1'}, label='finite:accepted_pulse_has_finite_samples'))
